@@ -48,6 +48,7 @@ type policy struct {
 	focus   int     // function id whose scheduling points switch (-1: none)
 	focusP  float64 // probability of switching at a scheduling point of the focus function
 	maxSw   int     // cap on voluntary switches
+	unlockW int     // > 0: switch (p = 1/2) at the first `unlockW` scheduling points a hand passes after it released a lock (a result computed under a lock and used after it)
 	first   int     // > 0: switch (p = 1/2) at the first `first` scheduling points executed in each function (cold-start groups: whatever is initialised on first use is initialised while several hands are in flight)
 }
 
@@ -74,6 +75,7 @@ type sched struct {
 	lockSw      int
 	foreign     int
 	touch       map[int]int
+	hot         int             // scheduling points of the token holder that still count as "right after an unlock"
 	pairs       map[uint64]bool // (function switched away from, function the resumed hand is parked in)
 	streak      int             // consecutive failed lock attempts with no statement executed in between
 	deadlockWhy string
@@ -121,6 +123,15 @@ func (s *sched) hook(fid int) {
 		return
 	}
 	if s.vol >= s.pol.maxSw {
+		return
+	}
+	if s.pol.unlockW > 0 {
+		if s.hot > 0 {
+			s.hot--
+			if s.rng.Chance(0.5) {
+				s.switchTo(w, -1, "y", fid)
+			}
+		}
 		return
 	}
 	if s.pol.first > 0 {
@@ -245,6 +256,7 @@ func (s *sched) switchTo(me *worker, want int, kind string, fid int) {
 		s.vol++
 	}
 	me.at = fid
+	s.hot = 0
 	if s.pairs == nil {
 		s.pairs = map[uint64]bool{}
 	}
@@ -451,4 +463,12 @@ func (s *sched) blocked() {
 	// hand has had a turn, so the deadlock test above cannot fire while some
 	// hand is able to move
 	s.switchTo(w, -2, "l", -1)
+}
+
+// unlocked is installed as the generated copy's "a lock has just been
+// released" point.
+func (s *sched) unlocked() {
+	if s.pol.unlockW > 0 && s.cur != nil {
+		s.hot = s.pol.unlockW
+	}
 }
